@@ -288,3 +288,152 @@ class Diff(Family):
         c = z3.Int("c")
         ctx.skolem(z3.And(0 <= c, c < v.lengths.get(r)))
         ctx.prove("post.a kept difference uses cells of its own row only", z3.And(g.S(r) + c + nd < g.S(r) + g.L(r), g.S(r) + c < dim_term(dflat.shape_[0])))
+
+
+@register
+class SortDispatch(Family):
+    """RaggedArray.sort(axis=-1) against the contract of its callee numpy.lexsort (recorded, not executed): the sort keys are the receiver's OWN cells
+    (the materialised cells for a lazily selected receiver) and, as primary key, the row number of every flat position of the receiver's OWN geometry
+    (`index_array`, by its contract proved in C01's family `ViewBase.index_array`, for the geometry object it is asked of); the result gathers the cells through the returned order and has the receiver's
+    geometry (semantically).  From numpy's lexsort contract (a permutation ordered by row number, then value; assumed) each row's block stays in place and is
+    sorted - that last step is a counting argument and stays with the bounded stand-in."""
+    name = "RaggedArray.sort"
+    qualname = "npstructures.raggedarray:RaggedArray.sort"
+    serves = ["C07", "C19"]
+    assumed = ["numpy.lexsort((values, rows)) returns a permutation ordering by rows, then values (recorded stub returning an arbitrary index array in range)",
+               "lemma (paper / bounded): a permutation ordered by a non-decreasing primary key keeps every block of equal primary key in place",
+               "callee contract RaggedView2.get_flat_indices for the lazily selected receiver (C06 families)"]
+
+    def kinds(self):
+        return ["fresh", "fresh[axis=1]", "lazy"]
+
+    def extra_functions(self):
+        return ["RaggedBase.ravel"]
+
+    def run(self, ctx, kind):
+        from npstructures import RaggedArray
+        from npstructures.raggedshape import RaggedView2
+        from ..sym.symnp import SymNumpy
+        from .ragged import sym_view2, sym_shape
+        from ..sym.core import fresh_name
+        if kind == "lazy":
+            v = sym_view2(ctx)
+            kbuf = z3.Int("kbuf")
+            ctx.assume(kbuf >= 0)
+            D = SymArr.symbolic("D", kbuf, "elem", np.int64, assume_len=False)
+            ctx.assume_forall("wf(view)", lambda r, c: z3.Implies(z3.And(0 <= r, r < v.n, 0 <= c, c < v.L(r)),
+                                                                  z3.And(0 <= v.S(r) + c * v.step, v.S(r) + c * v.step < kbuf)), arity=2)
+            ra = RaggedArray(D, v.obj)
+            g = sym_shape(ctx, "flat")
+            ctx.assume(g.n == v.n)
+            ctx.assume_forall("flat.L", lambda r: z3.Implies(z3.And(0 <= r, r < v.n), g.L(r) == v.L(r)))
+            idx = SymArr.symbolic("gather", g.S(g.n), "int", assume_len=False)
+            ctx.assume_forall("address map", lambda r, c: z3.Implies(z3.And(0 <= r, r < v.n, 0 <= c, c < v.L(r)),
+                                                                     idx.fn(g.S(r) + c) == v.S(r) + c * v.step), arity=2)
+            rowof = z3.Function(fresh_name("rowof"), z3.IntSort(), z3.IntSort())
+            ctx.assume_forall("rowof", lambda j: z3.Implies(z3.And(0 <= j, j < g.S(g.n)), z3.And(
+                0 <= rowof(j), rowof(j) < v.n, g.S(rowof(j)) <= j, j < g.S(rowof(j)) + g.L(rowof(j)))))
+            ctx.derivers.append(lambda j: [rowof(j), j - g.S(rowof(j))])
+            cell = lambda r, c: D.fn(v.S(r) + c * v.step)
+            Dbuf = D
+        else:
+            g = sym_ragged(ctx, kind="elem")
+            ra, Dbuf = g.ra, g.D
+            cell = lambda r, c: g.D.fn(g.S(r) + c)
+        telescoping(ctx, g, g.obj.lengths)
+        size = g.S(g.n)
+        calls = []
+        args = SymArr.symbolic("order", size, "int", assume_len=False)
+        ctx.assume_forall("order in range", lambda t: z3.Implies(z3.And(0 <= t, t < size), z3.And(0 <= args.fn(t), args.fn(t) < size)))
+
+        def lexsort_stub(self_, keys, axis=-1):
+            calls.append((keys, axis))
+            return args
+        # callee contract of index_array (proved in C01's family ViewBase.index_array): position S(r) + c holds r - for the geometry it is asked of
+        from npstructures.raggedshape import ViewBase
+        ia_calls = []
+
+        def index_array_stub(self_):
+            ia_calls.append(self_)
+            ia = SymArr.symbolic(fresh_name("rowno"), size, "int", assume_len=False)
+            if self_ is g.obj:
+                cur().assume_forall("index_array contract", lambda r_, c_: z3.Implies(z3.And(0 <= r_, r_ < g.n, 0 <= c_, c_ < g.L(r_)), ia.fn(g.S(r_) + c_) == r_), arity=2)
+            return ia
+        old_ia = ViewBase.__dict__["index_array"]
+        ViewBase.index_array = index_array_stub
+        had = "lexsort" in SymNumpy.__dict__
+        old_lex = SymNumpy.__dict__.get("lexsort")
+        SymNumpy.lexsort = lexsort_stub
+        old = RaggedView2.__dict__["get_flat_indices"]
+        if kind == "lazy":
+            RaggedView2.get_flat_indices = lambda self_, do_split=False: (idx, g.obj)
+        try:
+            out = ra.sort(axis=1) if "axis=1" in kind else ra.sort()
+        finally:
+            RaggedView2.get_flat_indices = old
+            ViewBase.index_array = old_ia
+            if had:
+                SymNumpy.lexsort = old_lex
+            else:
+                del SymNumpy.lexsort
+        ok = (len(calls) == 1 and isinstance(calls[0][0], (tuple, list)) and len(calls[0][0]) == 2 and calls[0][1] == -1
+              and all(isinstance(k_, SymArr) and k_.ndim == 1 for k_ in calls[0][0]) and isinstance(out, RaggedArray)
+              and calls[0][0][0].kind == Dbuf.kind and calls[0][0][1].kind == "int")      # lexsort's LAST key is the primary one: (values, row numbers)
+        ctx.prove("post.one lexsort over (cell values, row numbers) - the last key is the primary one -, result of the receiver's kind", z3.BoolVal(ok))
+        if not ok:
+            return
+        vals, rows = calls[0][0]
+        ctx.prove("post.both keys have one entry per cell", z3.And(dim_term(vals.shape_[0]) == size, dim_term(rows.shape_[0]) == size), pool=[g.n])
+        r = g.row()
+        c = z3.Int("c")
+        ctx.skolem(z3.And(0 <= c, c < g.L(r)))
+        j = g.S(r) + c
+        pool = [r, r + 1, c, j, j + 1, g.n]
+        ctx.prove("post.secondary key: the receiver's own cell (r, c) at flat position S(r) + c", vals.get(j) == cell(r, c), pool=pool)
+        ctx.prove("post.primary key: the row number r at every flat position of row r", rows.get(j) == r, pool=pool)
+        sh = out._shape
+        ctx.prove("post.receiver's geometry: same number of rows, row r starts at S(r) and has L(r) cells",
+                  z3.And(dim_term(sh.starts.shape_[0]) == g.n, dim_term(sh.lengths.shape_[0]) == g.n, sh.starts.get(r) == g.S(r), sh.lengths.get(r) == g.L(r)),
+                  pool=[r, r + 1, g.n], live=[c])
+        t = z3.Int("t")
+        ctx.skolem(z3.And(0 <= t, t < size))
+        od = out._RaggedBase__data
+        ctx.prove("post.result cell t is the key cell the order names: out[t] == values[order[t]]",
+                  z3.And(dim_term(od.shape_[0]) == size, od.get(t) == vals.get(args.fn(t))), pool=[t, args.fn(t), g.n])
+        ctx.prove("post.source buffer not written", z3.BoolVal(Dbuf.buf.writes == 0))
+
+    def concretise(self, kind, model, ghost):
+        return {"lengths": [3, 0, 2, 4], "derive": "reverse" if kind == "lazy" else "none"}
+
+    def concrete(self, case):
+        from npstructures import RaggedArray
+        ls = case["lengths"]
+        rows, v = [], 5
+        for l in ls:
+            rows.append([((v + i) * 7) % 5 - 2 for i in range(l)])
+            v += l
+        d = case["derive"]
+        if d == "reverse":
+            ra = RaggedArray(rows[::-1])[::-1]
+        elif d == "tail":
+            ra = RaggedArray([[9, 8, 7]] + rows)[1:]
+        elif d == "list":
+            idx = list(range(len(rows)))[::-1]
+            ra = RaggedArray([rows[i] for i in idx])[idx]
+        else:
+            ra = RaggedArray(rows)
+        if not any(ls):
+            return None
+        try:
+            got = ra.sort(axis=-1).tolist()
+        except Exception as e:
+            return {"msg": f"sort(axis=-1) of rows {rows} (derived: {d}) raised {type(e).__name__}: {e}", "sig": "raised:sort"}
+        if got != [sorted(r_) for r_ in rows]:
+            return {"msg": f"sort(axis=-1) of rows {rows} (derived: {d}): {got}", "sig": "wrong:sort"}
+
+    def bounded_cases(self, tier, seed):
+        from ..bounded.common import length_vectors
+        for ls in length_vectors(4, 3):
+            if ls:
+                for d in ("none", "reverse", "tail", "list"):
+                    yield {"lengths": ls, "derive": d}
